@@ -24,8 +24,8 @@ var c24Prefixes = []string{"-", "00", "00ff", "61", "6100", "fe", "ff", "ffff", 
 func c24RandPrefix(r *rand.Rand) string { return c24Prefixes[r.Intn(len(c24Prefixes))] }
 
 func c24History(r *rand.Rand, nops int) []string {
-	base := []string{"mem", "mem", "ldb", "mem f", "pbl"}[r.Intn(5)]
-	if base == "pbl" && r.Intn(3) > 0 {
+	base := []string{"mem", "mem", "ldb", "mem f", "pbl", "mem!", "ldb!1", "pbl!3"}[r.Intn(8)]
+	if len(base) >= 3 && base[:3] == "pbl" && r.Intn(3) > 0 {
 		base = "mem"
 	}
 	header := strings.Fields(base)
@@ -148,6 +148,19 @@ func c24Uniq(tags []string) []string {
 		obs = append(obs, "ok")
 		vu.Stat("uniq_ok")
 	}
+	// MigrateTables(s, nil) zeroes the tagged fields; CloseTables closes what OpenTables opened
+	zero := reflect.New(st)
+	table.MigrateTables(zero.Interface(), memorydb.New())
+	table.MigrateTables(zero.Interface(), nil)
+	for i := range tags {
+		if !zero.Elem().Field(i).IsNil() {
+			panic("MigrateTables(nil) left a table in place")
+		}
+	}
+	if err := table.CloseTables(opened.Interface()); err != nil && obs[len(obs)-1] == "ok" {
+		panic("CloseTables: " + err.Error())
+	}
+	vu.Stat("uniq_migrate_nil_close_tables")
 	db := memorydb.New()
 	mig := reflect.New(st)
 	table.MigrateTables(mig.Interface(), db)
